@@ -199,7 +199,7 @@ loop:
 // childProcs: sequential histories need no parallelism inside a child (the pool supplies it); races do.
 func childProcs(kind string) string {
 	if kind == "seq" {
-		return "2"
+		return "1"
 	}
 	return "4"
 }
@@ -272,8 +272,9 @@ func evalSeq(cases []Case, o *common.Options, rep *common.Report, probeKeys map[
 			if len(r.Events) > 0 && len(r.Events) <= len(c.Ops) {
 				at = strings.Fields(c.Ops[len(r.Events)-1])[0]
 			}
-			fail("crash:"+at, fmt.Sprintf("event %d (%s): %s", len(r.Events), at, r.Panic))
-			reproduced = pk == "crash:"+at
+			ck := crashKey(c, at, r.Panic)
+			fail(ck, fmt.Sprintf("event %d (%s): %s", len(r.Events), at, r.Panic))
+			reproduced = pk == ck
 			// correspondence: the model must show the same events and then a fault at the same event
 			if mo != nil {
 				ok := true
@@ -322,6 +323,23 @@ func evalSeq(cases []Case, o *common.Options, rep *common.Report, probeKeys map[
 		}
 	}
 	return nil
+}
+
+// crashKey classifies a crash by the event it happened in and what the run time said.
+func crashKey(c Case, at, msg string) string {
+	if c.Init == "E" && at == "add" && strings.Contains(msg, "assignment to entry in nil map") {
+		// registered on a zero-byte store file (nothing was loaded, the maps are nil), then the first add
+		return "F19:empty-store-file-nil-maps-add-panics"
+	}
+	short := msg
+	if i := strings.IndexAny(short, "\n["); i > 0 {
+		short = short[:i]
+	}
+	short = strings.Join(strings.Fields(short), "-")
+	if len(short) > 60 {
+		short = short[:60]
+	}
+	return "crash:" + at + ":" + short
 }
 
 func lastLine(r Result, c Case) string {
@@ -376,6 +394,13 @@ func evalRace(cases []Case, o *common.Options, rep *common.Report) error {
 			rep.Fail(common.OracleFailure{Engine: "conc", Key: "conc:crash:" + kinds, Case: c, Detail: r.Panic})
 			continue
 		}
+		if len(r.Events) > 0 {
+			// the sequential prefix already violates the statement (a sequential defect, keyed as such): the race says nothing new
+			if k, d := views(r.Events[0].Obs, "race-prefix"); k != "" {
+				rep.Fail(common.OracleFailure{Engine: "conc", Key: k, Case: c, Detail: "before the race starts: " + d})
+				continue
+			}
+		}
 		for _, oc := range r.Outcomes {
 			if k, d := views(oc.Obs, kinds); k != "" {
 				rep.Fail(common.OracleFailure{Engine: "conc", Key: "conc:" + k, Case: c, Detail: fmt.Sprintf("results %v, %d of %d repetitions: %s", oc.Ress, oc.N, c.Reps, d)})
@@ -428,14 +453,25 @@ func hammers(pskLen, reps int) []Case {
 		return Case{Kind: "hammer", PSKLen: pskLen, TCP: true, UDP: true, Init: init, Ops: ops, Race: race, Reps: reps}
 	}
 	two := mkDoc([]DocEntry{{"a", k[0]}, {"b", k[1]}})
-	three := mkDoc([]DocEntry{{"a", k[0]}, {"b", k[1]}, {"d", k[3]}})
 	return []Case{
 		mk("J:", []string{"delete c"}, "add c "+k[2].String(), "delete c"),
 		mk(two, []string{"delete c"}, "add c "+k[2].String(), "delete c", "update c "+k[3].String()),
 		mk(two, []string{"delete c", "delete d"}, "add c "+k[2].String(), "add d "+k[2].String()),
 		mk(two, []string{"update a " + k[0].String()}, "update a "+k[2].String(), "update a "+k[3].String()),
-		mk(two, []string{"reload-loop", string(two), string(three)}, "add c "+k[2].String(), "delete c"),
 	}
+}
+
+// reloadLoops: LoadFromFile in a loop against add/delete in a loop, for `ms` milliseconds, in `n` processes.
+func reloadLoops(pskLen, n, ms int) []Case {
+	k := universe(pskLen)
+	two := mkDoc([]DocEntry{{"a", k[0]}, {"b", k[1]}})
+	three := mkDoc([]DocEntry{{"a", k[0]}, {"b", k[1]}, {"d", k[3]}})
+	var cs []Case
+	for i := 0; i < n; i++ {
+		cs = append(cs, Case{Kind: "hammer", PSKLen: pskLen, TCP: true, UDP: true, Init: two,
+			Ops: []string{"reload-loop", string(two), string(three)}, Race: []string{"add c " + k[2].String(), "delete c"}, Reps: ms})
+	}
+	return cs
 }
 
 func evalHammers(cases []Case, rep *common.Report, probe bool) {
@@ -461,11 +497,11 @@ func evalHammers(cases []Case, rep *common.Report, probe bool) {
 		}
 		if probe {
 			// the two F7 witnesses
-			if i == 0 {
-				rep.FindingsProbed["conc:unlisted-key-accepted:add|delete"] = key == "conc:unlisted-key-accepted:add|delete"
-			}
-			if i == len(cases)-1 {
-				rep.FindingsProbed["conc:crash:add|delete|reload"] = key == "conc:crash:add|delete|reload"
+			// the two F7 witnesses (schedule-dependent: several templates / processes try)
+			for _, pk := range []string{"conc:unlisted-key-accepted:add|delete", "conc:crash:add|delete|reload"} {
+				if kinds == strings.TrimPrefix(strings.TrimPrefix(pk, "conc:unlisted-key-accepted:"), "conc:crash:") {
+					rep.FindingsProbed[pk] = rep.FindingsProbed[pk] || key == pk
+				}
 			}
 		}
 	}
@@ -481,7 +517,7 @@ func probes(pskLen int) ([]Case, map[int]string) {
 			Ops: []string{"update b " + k[0].String(), "tick", "edit J:", "reload"}},
 	}
 	cs = append(cs, Case{Kind: "seq", PSKLen: pskLen, TCP: true, UDP: true, Init: "E", Ops: []string{"add b " + k[3].String(), "tick"}})
-	return cs, map[int]string{0: "shared-key:add", 1: "shared-key:update", 2: "crash:add"}
+	return cs, map[int]string{0: "shared-key:add", 1: "shared-key:update", 2: "F19:empty-store-file-nil-maps-add-panics"}
 }
 
 func parentMain() {
@@ -491,7 +527,7 @@ func parentMain() {
 	rep.Rule = "engine cred: histories of <= 12 events (add/update/delete/reload/external edit/debounce tick) over names {a,b,c,d,\"\"} x 4 keys (+ a wrong-size key), " +
 		"PSK length 16|32, TCP-only|UDP-only|both, initial store of 0..3 users or an invalid one; after every event Credentials(), LookupUser and a real TCP handshake / UDP session open per key, and the file; " +
 		"non-trivial = at least one acknowledged and one refused event; distinct by (configuration, history). " +
-		"engine conc: 2-3 operations on the same user/key/file released together (8 repetitions each) compared at quiescence with all interleavings of the model's atomic segments; " +
+		"engine conc: 2-3 operations on the same user/key/file released together (6 repetitions each) compared at quiescence with all interleavings of the model's atomic segments; " +
 		"non-trivial = more than one possible or observed outcome; plus 5 hammer templates (lookup-level oracle)"
 	if err := selfCheckDocText(); err != nil {
 		fmt.Fprintln(os.Stderr, "corr_c08:", err)
@@ -524,7 +560,7 @@ func parentMain() {
 			}
 		}
 		only := os.Getenv("C08_ONLY") // debugging aid: seq | race | hammer
-		n := o.Budget(1500, 40000)
+		n := o.Budget(1200, 25000)
 		if only != "" && only != "seq" {
 			n = 0
 		}
@@ -537,7 +573,7 @@ func parentMain() {
 			}
 		}
 		if err == nil && (only == "" || only == "race") {
-			nr := o.Budget(200, 5000)
+			nr := o.Budget(160, 3000)
 			var rc []Case
 			for i := 0; i < nr; i++ {
 				rc = append(rc, genRace(r.Fork(uint64(1_000_000+i))))
@@ -545,8 +581,12 @@ func parentMain() {
 			err = evalRace(rc, o, rep)
 		}
 		if err == nil && (only == "" || only == "hammer") {
-			reps := o.Budget(10000, 200000)
-			evalHammers(hammers(common.Pick(r, []int{16, 32}), reps), rep, true)
+			reps := o.Budget(8000, 100000)
+			l := common.Pick(r, []int{16, 32})
+			hs := hammers(l, reps)
+			hs = append(hs, hammers(l, reps)[0]) // the add || delete pair twice
+			hs = append(hs, reloadLoops(l, o.Budget(2, 6), o.Budget(6000, 30000))...)
+			evalHammers(hs, rep, true)
 		}
 	}
 	if err != nil {
